@@ -32,12 +32,13 @@ void bodies_setup_shared() {
   sched_log_allocs(0);
 }
 
-int bodies_count() { return 12; }
+int bodies_count() { return 13; }
 const char* bodies_name(int b) {
   static const char* n[] = {"B1 Clipper64+shared container (Intersection->paths)", "B2 Clipper64+shared container (Xor->tree)", "B3 ClipperD", "B4 ClipperOffset round/joined", "B5 RectClip+RectClipLines", "B6 MinkowskiSum", "B7 utilities",
                            "B8 ClipperOffset delta callback, round joins", "B9 Clipper64->PolyTree, island inscribed in its hole",
                            "B10 PathsD free functions (RectClip, InflatePaths, Union, TrimCollinear, MinkowskiSum)", "B11 PathsD free functions called with an invalid precision / out-of-range coordinates (error path)",
-                           "B12 ClipperD->PolyTreeD (precision 2 / 5), nested children"};
+                           "B12 ClipperD->PolyTreeD (precision 2 / 5), nested children",
+                           "B13 ClipperOffset on one-point paths (circles / squares), different delta and arc tolerance per variant"};
   return n[b];
 }
 
@@ -92,5 +93,12 @@ void bodies_run(int body, int variant, std::string& out) {
       c.AddSubject(s); CL::PolyTreeD t; CL::PathsD o; bool ok = c.Execute(CL::ClipType::Union, CL::FillRule::EvenOdd, t, o); out += ok ? "T" : "F";
       std::function<void(const CL::PolyPathD&)> walk = [&](const CL::PolyPathD& n) { out += "{"; serD(out, CL::PathsD{n.Polygon()}); for (auto& ch : n) walk(*ch); out += "}"; };
       walk(t); break; }
+    case 12: { // one-point paths become circles (round joins) or squares; the two variants use different radii and arc tolerances
+      for (int jt = 0; jt < 3; jt += 2) {
+        CL::ClipperOffset co(2.0, variant ? 0.5 : 0.05);
+        co.AddPaths(CL::Paths64{mk({10 + d, 10}), mk({300 + d, 40}), mk({600, 80 + d})}, jt ? CL::JoinType::Round : CL::JoinType::Square, CL::EndType::Round);
+        CL::Paths64 s3; co.Execute(variant ? 9.0 : 5.0, s3); ser(out, s3);
+      }
+      break; }
   }
 }
